@@ -1271,4 +1271,40 @@ theorem NP.fromControl : NP (fun _ => True) fromControl := by
       NP.pure _ trivial
   · simp only [hc, if_false]; exact NP.fail _
 
+/-! ## Single faulted steps -/
+
+theorem M.bind_err {α β : Type} (x : M α) (f : α → M β) (st st' : St) (e : Err)
+    (h : x st = (.err e, st')) : (x >>= f) st = (.err e, st') := by
+  rw [M.bind_eq, h]
+
+/-- a served register read with a non-empty fault schedule whose head is `none` -/
+theorem readReg_served (base off len : Nat) (m : Mem) (log fs sb si)
+    (hlen : 0 < len) (ha : base + off + len ≤ 2 ^ 64) (hm : m.rangeMapped (base + off) len = true) :
+    readReg base off len ⟨⟨m, log, none :: fs⟩, sb, si⟩ =
+      (.ok (fromLE (m.read (base + off) len)), ⟨⟨m, log ++ [.r (base + off) len true], fs⟩, sb, si⟩) := by
+  have h1 : regAddr base off = .ok (base + off) := by
+    simp only [regAddr]; rw [if_pos (by omega)]
+  have h2 : verifyRange (base + off) len = .ok () := by
+    simp only [verifyRange]; rw [if_pos (by omega)]
+  simp [readReg, M.bind_eq, M.lift, h1, h2, devRead, Dev.read, popFault, hm, pure, M.pure]
+
+/-- a faulted register write: the error of the fault, the device image changes only if the
+fault says the write was executed (lost acknowledge) -/
+theorem writeReg32_faulted (base off v : Nat) (m : Mem) (log fs sb si) (f : Fault)
+    (ha : base + off + 4 ≤ 2 ^ 64) (hm : m.rangeMapped (base + off) 4 = true) :
+    writeReg32 base off v ⟨⟨m, log, some f :: fs⟩, sb, si⟩ =
+      (.err f.err, ⟨⟨if f.applied then m.write (base + off) (toLE 4 v) else m,
+        log ++ [.w (base + off) (toLE 4 v) false f.applied], fs⟩, sb, si⟩) := by
+  have h1 : regAddr base off = .ok (base + off) := by
+    simp only [regAddr]; rw [if_pos (by omega)]
+  have h2 : verifyRange (base + off) 4 = .ok () := by
+    simp only [verifyRange]; rw [if_pos (by omega)]
+  cases hap : f.applied <;>
+    simp [writeReg32, M.bind_eq, M.lift, h1, h2, devWrite, Dev.write, popFault, hm, hap]
+
+theorem enabledIn_write_zero (m : Mem) (s : Nat) : ¬ enabledIn (m.write (s + SI_CONTROL) (toLE 4 0)) s := by
+  simp only [enabledIn, regVal]
+  rw [read_write32_eq]
+  decide
+
 end CamVerif.Streaming
